@@ -63,6 +63,18 @@ Fixpoint members_distinct (l : list (fparams * ty)) : bool :=
   | a :: r => forallb (disjoint a) r && members_distinct r
   end.
 
+(* A SEQUENCE (not a SET) may use an identifier again once the decoder's scan position has passed the
+   earlier member: what must differ from a member that is present are the absent OPTIONAL members
+   skipped just before it ([gap]: the absent members since the last present one). *)
+Fixpoint ordered_go (gap : list (fparams * ty)) (l : list (fparams * ty)) (ws : list value) : bool :=
+  match l, ws with
+  | [], [] => true
+  | a :: l', w :: ws' =>
+    if p_optional (fst a) && is_nil w then ordered_go (gap ++ [a]) l' ws'
+    else forallb (fun b => disjoint b a) gap && ordered_go [] l' ws'
+  | _, _ => false
+  end.
+
 (* ... hereditarily, for a whole type descriptor (value-independent part of [ok]) *)
 Fixpoint ty_distinct (t : ty) : bool :=
   match t with
@@ -79,7 +91,9 @@ Fixpoint ty_distinct (t : ty) : bool :=
    - context tags IMPLICIT (or none) and below 2^63; no open types; no OBJECT
      IDENTIFIER; the members of a SEQUENCE, SET or CHOICE start with pairwise
      different identifiers (context tag, or universal identifier of the type for a
-     member declared without one); OPTIONAL only on nillable kinds;
+     member declared without one) -- or, in a SEQUENCE, every member present differs
+     from the absent OPTIONAL members skipped just before it; OPTIONAL only on
+     nillable kinds;
    - integers are int64; BIT STRING byte count = ceil(bits/8); the unselected
      alternatives of a CHOICE are nil.
    Members that are absent (nil OPTIONAL) or alternatives that are not selected
@@ -119,7 +133,7 @@ Fixpoint ok (t : ty) (p : fparams) (v : value) {struct t} : bool :=
   | TSeq fields =>
     match v with
     | VStruct vs =>
-      negb (p_open p) && members_distinct fields &&
+      negb (p_open p) && (members_distinct fields || (negb (p_set p) && ordered_go [] fields vs)) &&
       (fix go (l : list (fparams * ty)) (ws : list value) : bool :=
          match l, ws with
          | [], [] => true
@@ -843,7 +857,8 @@ Definition ok_seq_go :=
     end.
 
 Lemma seq_find_sel rec p current tn chunk K : forall jrel l' i0 fp ft,
-  (forall i a, nth_error l' i = Some a -> (i < jrel)%nat -> starts (snd a) (fst a) tn = false) ->
+  (forall i a, nth_error l' i = Some a -> (i < jrel)%nat -> ((if p_set p then O else current) <= i0 + i)%nat ->
+               starts (snd a) (fst a) tn = false) ->
   nth_error l' jrel = Some (fp, ft) ->
   ((if p_set p then O else current) <= i0 + jrel)%nat ->
   p_open p = false -> starts ft fp tn = true ->
@@ -857,15 +872,16 @@ Proof.
     rewrite Ho, Hm. reflexivity.
   - destruct l' as [|[a0 t0] l']; [discriminate Hl|]. cbn [nth_error] in Hl.
     cbn [seq_find].
-    pose proof (Hbefore 0%nat (a0, t0) eq_refl ltac:(lia)) as Hb0. cbn [fst snd] in Hb0.
-    rewrite Ho, Hb0.
     assert (Rest : seq_find rec p current tn chunk K l' (S i0) =
                    do v <- rec ft fp chunk; K (i0 + S jrel)%nat v).
     { rewrite (IH l' (S i0) fp ft); [| |exact Hl| |exact Ho|exact Hm].
       - replace (S i0 + jrel)%nat with (i0 + S jrel)%nat by lia. reflexivity.
-      - intros i a Hi Hlt. apply (Hbefore (S i) a Hi). lia.
+      - intros i a Hi Hlt Hge. apply (Hbefore (S i) a Hi); lia.
       - lia. }
-    destruct (Nat.ltb i0 (if p_set p then 0%nat else current)); exact Rest.
+    destruct (Nat.ltb i0 (if p_set p then 0%nat else current)) eqn:Elt; [exact Rest|].
+    apply Nat.ltb_ge in Elt.
+    pose proof (Hbefore 0%nat (a0, t0) eq_refl ltac:(lia) ltac:(lia)) as Hb0. cbn [fst snd] in Hb0.
+    rewrite Ho, Hb0. exact Rest.
 Qed.
 
 Lemma set_nth_app_len {A} (a : list A) x y r : set_nth (a ++ x :: r) (length a) y = a ++ y :: r.
@@ -874,11 +890,18 @@ Proof. induction a as [|z a IH]; cbn [app length set_nth]; [reflexivity | rewrit
 Lemma nth_error_app_len {A} (a : list A) x r : nth_error (a ++ x :: r) (length a) = Some x.
 Proof. induction a; cbn; auto. Qed.
 
+Lemma nth_error_skipn_in {A} (l : list A) : forall c i a,
+  (c <= i)%nat -> nth_error l i = Some a -> In a (skipn c l).
+Proof.
+  induction l as [|x l IH]; intros c i a Hc Hi; [destruct i; discriminate Hi|].
+  destruct c as [|c]; [cbn [skipn]; eapply nth_error_In; exact Hi|].
+  destruct i as [|i]; [lia|]. cbn [skipn nth_error] in *. apply (IH c i a); [lia | exact Hi].
+Qed.
+
 Section SeqRT.
   Variable l : list (fparams * ty).
   Variable p : fparams.
   Variable bs : list Z.
-  Hypothesis Hm : members_distinct l = true.
   Hypothesis Ho : p_open p = false.
   Hypothesis Hsz : zlen bs < 2 ^ 32.
 
@@ -886,6 +909,7 @@ Section SeqRT.
     l = pre ++ rem ->
     Forall (fun a => rt_ok (snd a)) rem ->
     ok_seq_go rem wrem = true ->
+    (members_distinct l = true \/ (p_set p = false /\ ordered_go (skipn current pre) rem wrem = true)) ->
     enc_seq_go enc rem wrem = Ok C ->
     bs = B0 ++ C ->
     (current <= length pre)%nat -> length canon_pre = length pre ->
@@ -894,7 +918,7 @@ Section SeqRT.
     = Ok (VStruct (canon_pre ++ canon_seq_go rem wrem)).
   Proof.
     induction rem as [|[fp ft] rem IH];
-      intros wrem pre canon_pre fuel current B0 C El HF Hcv He Ebs Hcur Hlen Hfuel.
+      intros wrem pre canon_pre fuel current B0 C El HF Hcv Hm He Ebs Hcur Hlen Hfuel.
     - destruct wrem; [|discriminate Hcv]. cbn in He. inversion He; subst C.
       rewrite app_nil_r in Ebs. cbn [map canon_seq_go].
       replace (zlen bs) with (zlen B0) by (rewrite Ebs; reflexivity).
@@ -907,11 +931,14 @@ Section SeqRT.
       assert (El' : pre ++ (fp, ft) :: rem = (pre ++ [(fp, ft)]) ++ rem) by (rewrite <- app_assoc; reflexivity).
       (* the step for a member that is present in the encoding *)
       assert (Present : forall b r, ok ft fp w = true ->
+                (members_distinct l = true \/
+                 (p_set p = false /\ forallb (fun b0 => disjoint b0 (fp, ft)) (skipn current pre) = true /\
+                  ordered_go [] rem wrem = true)) ->
                 enc ft fp w = Ok b -> enc_seq_go enc rem wrem = Ok r -> C = b ++ r ->
                 seq_loop dec l p bs (zlen bs) fuel (zlen B0) current
                   (canon_pre ++ zero ft :: map (fun a => zero (snd a)) rem) =
                 Ok (VStruct (canon_pre ++ canon ft false w :: canon_seq_go rem wrem))).
-      { intros b r Hw Eb Er EC. subst C.
+      { intros b r Hw Hsel Eb Er EC. subst C.
         assert (Hbl : zlen b < 2 ^ 32).
         { rewrite Ebs, !zlen_app in Hsz. pose proof (zlen_nonneg B0). pose proof (zlen_nonneg r). lia. }
         destruct (IHf fp w b Hw Eb Hbl) as [Hd Hsh].
@@ -945,12 +972,21 @@ Section SeqRT.
           apply (IH wrem (pre ++ [(fp, ft)]) (canon_pre ++ [canon ft false w]) fk (S (length pre)) (B0 ++ b) r);
             try assumption.
           + rewrite El, El'. reflexivity.
+          + destruct Hsel as [Hd0|[Hset [_ Hord]]]; [left; exact Hd0|]. right. split; [exact Hset|].
+            rewrite skipn_all2 by (rewrite app_length; cbn [length]; lia). exact Hord.
           + rewrite Ebs, <- app_assoc. reflexivity.
           + rewrite app_length. cbn [length]. lia.
           + rewrite !app_length. cbn [length]. lia.
           + lia.
-        - intros i a Hi Hlt.
-          apply (members_distinct_neq l Hm i (length pre) a (fp, ft) tal Hi Hnth); [lia | exact Hmatch].
+        - intros i a Hi Hlt Hge. cbn [Nat.add] in Hge.
+          destruct Hsel as [Hd0|[Hset [Hgap _]]].
+          + apply (members_distinct_neq l Hd0 i (length pre) a (fp, ft) tal Hi Hnth); [lia | exact Hmatch].
+          + rewrite Hset in Hge.
+            destruct (starts (snd a) (fst a) tal) eqn:Sa; [|reflexivity]. exfalso.
+            rewrite forallb_forall in Hgap.
+            apply (disjoint_starts a (fp, ft) tal); [|exact Sa|exact Hmatch].
+            apply Hgap. rewrite El in Hi. rewrite nth_error_app1 in Hi by lia.
+            apply (nth_error_skipn_in pre current i a Hge Hi).
         - exact Hnth.
         - cbn [Nat.add]. destruct (p_set p); lia.
         - exact Ho.
@@ -970,6 +1006,9 @@ Section SeqRT.
           apply (IH wrem (pre ++ [(fp, ft)]) (canon_pre ++ [zero ft]) fuel current B0 C);
             try assumption.
           -- rewrite El, El'. reflexivity.
+          -- destruct Hm as [Hd0|[Hset Hord]]; [left; exact Hd0|]. right. split; [exact Hset|].
+             cbn [ordered_go fst] in Hord. rewrite Eopt, Enil in Hord. cbn [andb] in Hord.
+             rewrite skipn_app. replace (current - length pre)%nat with 0%nat by lia. exact Hord.
           -- rewrite app_length. cbn [length]. lia.
           -- rewrite !app_length. cbn [length]. lia.
         * (* present OPTIONAL member *)
@@ -980,13 +1019,19 @@ Section SeqRT.
           destruct (enc ft fp w) as [b| | |] eqn:Eb; try discriminate He.
           destruct (enc_seq_go enc rem wrem) as [r| | |] eqn:Er; cbn [bind] in He; try discriminate He.
           inversion He; subst C; clear He.
-          apply (Present b r); try reflexivity; assumption.
+          apply (Present b r); try reflexivity; try assumption.
+          destruct Hm as [Hd0|[Hset Hord]]; [left; exact Hd0|]. right. split; [exact Hset|].
+          cbn [ordered_go fst] in Hord. rewrite Eopt, Enil in Hord. cbn [andb] in Hord.
+          apply andb_true_iff in Hord. exact Hord.
       + rename Hhead into Hw.
         destruct (p_open fp); [discriminate He|].
         destruct (enc ft fp w) as [b| | |] eqn:Eb; try discriminate He.
         destruct (enc_seq_go enc rem wrem) as [r| | |] eqn:Er; cbn [bind] in He; try discriminate He.
         inversion He; subst C; clear He.
-        apply (Present b r); try reflexivity; assumption.
+        apply (Present b r); try reflexivity; try assumption.
+        destruct Hm as [Hd0|[Hset Hord]]; [left; exact Hd0|]. right. split; [exact Hset|].
+        cbn [ordered_go fst] in Hord. rewrite Eopt in Hord. cbn [andb] in Hord.
+        apply andb_true_iff in Hord. exact Hord.
   Qed.
 End SeqRT.
 
@@ -998,6 +1043,9 @@ Proof.
   apply andb_true_iff in Hok. destruct Hok as [Hok Hv].
   apply andb_true_iff in Hok. destruct Hok as [Ho Hm]. rewrite negb_true_iff in Ho.
   fold ok_seq_go in Hv.
+  assert (Hm' : members_distinct l = true \/ (p_set p = false /\ ordered_go (skipn 0 []) l vs = true)).
+  { apply orb_true_iff in Hm. destruct Hm as [Hm|Hm]; [left; exact Hm|]. right.
+    apply andb_true_iff in Hm. destruct Hm as [Hs0 Hord]. rewrite negb_true_iff in Hs0. split; assumption. }
   destruct (enc_seq_go enc l vs) as [content| | |] eqn:Ec; cbn [bind] in He; try discriminate.
   inversion He; subst bs; clear He.
   rewrite finish_hdr_of in * by exact Hn.
@@ -1014,8 +1062,8 @@ Proof.
   rewrite (enter_range dec p 0 true (seq_tag p) content).
   rewrite ident_ok_tl_of by prim_tag_side; cbn [negb]. fold H.
   cbn [canon]. fold canon_seq_go.
-  pose proof (seq_loop_rt l p (H ++ content) Hm Ho Hs l vs [] [] (length (H ++ content)) 0%nat H content
-                eq_refl IH Hv Ec eq_refl) as L.
+  pose proof (seq_loop_rt l p (H ++ content) Ho Hs l vs [] [] (length (H ++ content)) 0%nat H content
+                eq_refl IH Hv Hm' Ec eq_refl) as L.
   cbn [app length] in L. apply L; [lia | reflexivity |].
   rewrite app_length. unfold zlen. lia.
 Qed.
